@@ -238,6 +238,8 @@ pub enum Op {
     AwaitStart(u8),
     Cast { to: u8, seq: u32 },
     WrongCast(u8),
+    /// a call through a wrongly typed ActorRef built from the cell
+    WrongCall(u8),
     Call { to: u8, id: u32, timeout_ms: Option<u16> },
     MultiCall { to: Vec<u8>, id: u32, timeout_ms: Option<u16> },
     CallFwd { to: u8, fwd: u8, id: u32, timeout_ms: Option<u16> },
@@ -278,6 +280,8 @@ impl ractor::Message for Msg {}
 /// a second message type, for wrong-typed sends
 pub struct OtherMsg(pub u32);
 impl ractor::Message for OtherMsg {}
+pub struct OtherCall(pub RpcReplyPort<u32>);
+impl ractor::Message for OtherCall {}
 
 #[derive(Default)]
 pub struct Slot {
@@ -913,6 +917,18 @@ pub async fn exec_op(w: &Arc<World>, c: usize, i: usize, op: &Op) -> Res {
         Op::WrongCast(to) => {
             let cell = cell!(to);
             send_res(&cell.get_cell().send_message(OtherMsg(7)))
+        }
+        Op::WrongCall(to) => {
+            let cell = cell!(to);
+            let wrong: ActorRef<OtherCall> = cell.get_cell().into();
+            match wrong.call(OtherCall, Some(Duration::from_millis(5))).await {
+                Ok(CallResult::Success(v)) => Res::Success(v as u64),
+                Ok(CallResult::Timeout) => Res::Timeout,
+                Ok(CallResult::SenderError) => Res::SenderError,
+                Err(MessagingErr::SendErr(_)) => Res::SendErr,
+                Err(MessagingErr::ChannelClosed) => Res::ChannelClosed,
+                Err(MessagingErr::InvalidActorType) => Res::InvalidType,
+            }
         }
         Op::Call { to, id, timeout_ms } => {
             let cell = cell!(to);
